@@ -1053,12 +1053,16 @@ package netty
 //@   ensures unregisters: nemitted() == 1 && evis(0, "Delete") && evarg(0, 0) == &bs.listeners
 //@ func (*listener).Close
 //@   params l
-//@   locals acceptor
+//@   locals first acceptor
 //@   event
 //@   requires lsnInv(l)
 //@   modifies listener.closed, listener.acceptor, listener.options
 //@   ensures one_critical_section: count("lock l.mutex") == 1 && count("unlock l.mutex") == 1 && first("lock l.mutex") < first("unlock l.mutex")
 //@   ensures marks_closed: l.closed == true
+// the registry is keyed by URL and a URL may be listened on again once its listener is closed: only the
+// Close call that finds the listener open (elected under the mutex) may remove the entry - a later
+// Close of the same, already closed listener would remove whatever listener is registered there now
+//@   ensures unregisters_only_on_first_close: implies(at(first("lock l.mutex"), l.closed), count("removeListener") == 0) && implies(!at(first("lock l.mutex"), l.closed), count("removeListener") == 1 && evarg(first("removeListener"), 1) == l.url)
 //@   ensures acceptor_closed_or_absent: iff(l.acceptor != nil, count("Acceptor.Close") == 1) && count("Acceptor.Close") <= 1 && implies(count("Acceptor.Close") == 1, first("unlock l.mutex") < first("Acceptor.Close") && evrecv(first("Acceptor.Close")) == l.acceptor)
 //@ field listener.closed storesconst true
 
